@@ -181,12 +181,12 @@ theorem noPending_of_bnd (endT : Int) (s : St) (hinv : Inv s) (hb : Bnd endT s) 
 def NoSticky (s : St) : Prop := ∀ pf ∈ s.fronts, pf.2.sticky = none
 
 theorem poll_force_nosticky (beh : Beh) (gt endT : Int) (v : Store) (p : Pid) (f : Front)
-    (hf : FrontOK gt f) : (poll beh gt endT true v p f).front.sticky = none := by
+    (hlt : gt < endT) (hf : FrontOK gt f) : (poll beh gt endT true v p f).front.sticky = none := by
   unfold poll pollWith
   unfold FrontOK at hf
   cases hp : f.pending <;> cases hs : f.sticky <;> simp only [hp, hs] at hf ⊢ <;> grind
 
-theorem iter_force_nosticky (c : Cfg) (endT : Int) (s : St) (hinv : Inv s) :
+theorem iter_force_nosticky (c : Cfg) (endT : Int) (s : St) (hlt : s.gt < endT) (hinv : Inv s) :
     NoSticky (iter c endT true s) := by
   have key : ∀ (gt' : Int) (p : Pid) (f : Front), (p, f) ∈ s.fronts →
       (settle gt' (poll c.beh s.gt endT true s.store p f)).sticky = none := by
@@ -194,7 +194,7 @@ theorem iter_force_nosticky (c : Cfg) (endT : Int) (s : St) (hinv : Inv s) :
     unfold settle
     split
     · simp [emptyFront]
-    · exact poll_force_nosticky _ _ _ _ _ _ (hinv _ hmem)
+    · exact poll_force_nosticky _ _ _ _ _ _ hlt (hinv _ hmem)
   have hclear : ∀ gt' (f : Front), (clearDue gt' f).sticky = f.sticky := by
     intro gt' f; unfold clearDue
     split
@@ -238,7 +238,7 @@ theorem loop_force_nosticky (c : Cfg) (hb : PosBeh c.beh) (endT : Int) :
         unfold loop at h
         simp [h2] at h
         rw [← h]
-        exact iter_force_nosticky c endT s hinv
+        exact iter_force_nosticky c endT s hlt hinv
     · have hlt' : (iter c endT true s).gt < endT := by omega
       simp only [h2, decide_false, Bool.and_false] at h
       exact ih _ _ h hinv' hlt'
